@@ -794,11 +794,18 @@ pub fn safe_buffer() -> Result<Vec<usize>, String> {
         if out.contains(&addr) {
             return Err(format!("the buffer is cyclic or contains {:#x} twice", addr));
         }
+        // the back link of every element must name its predecessor (0 for the head): a stale back link is followed -
+        // and written through - when the element leaves the buffer later
+        let snap = unsafe { hk::snapshot_at(addr) };
+        let want_prev = out.last().copied().unwrap_or(0);
+        if snap.prev != want_prev {
+            return Err(format!("the buffered object at {:#x} has a back link to {:#x}, but its predecessor in the buffer is {:#x}", addr, snap.prev, want_prev));
+        }
         out.push(addr);
         if out.len() > 64 {
             return Err("the buffer holds more than 64 objects".to_string());
         }
-        addr = unsafe { hk::snapshot_at(addr) }.next;
+        addr = snap.next;
     }
     Ok(out)
 }
